@@ -84,6 +84,23 @@ def oneStepOK (F : Fmt) (ss : Bool) (sb : Nat) (x : Int) (r : FV) : Bool :=
     let d := q - (a : Rat) / fs
     let tol : Rat := 1 / ((2:Int)^(sb-1) : Int) + 1 / ((2:Int)^(F.p-1) : Int)
     d ≥ -tol && d ≤ tol
+/-- the same with the float rounding taken relative to the value (three roundings of at most half an ulp each:
+`D(sample)`, the full-scale constant, the division): `2^-(b-1) + 2^-(p-2) * |amplitude / full scale|`.  Checked on the
+implementation's observations only (the theorems of C09 / C09W are stated with the absolute tolerance above): for
+64-bit sources the absolute tolerance `2^-52` is a thousand steps wide near zero.  Applied to signed sources only: the
+unsigned conversion subtracts the offset in the float type, so its rounding is relative to the *code*, not to the
+amplitude, which the absolute tolerance covers and this one would wrongly reject. -/
+def oneStepRelOK (F : Fmt) (ss : Bool) (sb : Nat) (x : Int) (r : FV) : Bool :=
+  match r.toRat? with
+  | none => false
+  | some q =>
+    let a := amp ss sb x
+    let fs : Rat := if 0 < a then ((2:Int)^(sb-1) - 1 : Int) else ((2:Int)^(sb-1) : Int)
+    let v := (a : Rat) / fs
+    let d := q - v
+    let av := if v < 0 then -v else v
+    let tol : Rat := 1 / ((2:Int)^(sb-1) : Int) + av * 4 / ((2:Int)^F.p : Int)
+    d ≥ -tol && d ≤ tol
 /-- distinct samples give distinct floats (depth ≤ 32 through float64) -/
 def injOK (x y : Int) (rx ry : FV) : Bool := x = y || rx != ry
 /-- exact round trip (float64, depth ≤ 32) / within one step (float32, depth ≤ 16) -/
